@@ -142,6 +142,13 @@ class Check(BaseCheck):
             if k % 3 == 2:           # spectra of small meshes: eigenvalues ~1e4..1e6 with correspondingly short times (lambda*t stays O(1))
                 es = 10.0 ** rng.uniform(3, 6); evals = evals * es
                 ts = ts / es if np.isscalar(ts) else np.asarray(ts) / es
+            if k % 5 == 1 and not np.isscalar(ts) and np.size(ts) >= 2:
+                # times in any order, spanning several decades (lambda*t from << 1 to >> 1 in one call): the formula is per (vertex, time)
+                shape = np.shape(ts)
+                tt = 10.0 ** np.linspace(2.0, -2.5, np.size(ts)) * (float(np.max(np.abs(evals))) + 1e-300) ** -1 * 40.0
+                if k % 2:
+                    tt = tt[rng.permutation(len(tt))]
+                ts = tt.reshape(shape)
             ev_in = evals if k % 2 else evals.reshape(-1, 1)
             xs = rng.choice(nv, size=int(rng.integers(1, 4)))
             case = dict(evecs=evecs, evals=evals, n=n, q=q, t=np.atleast_1d(np.asarray(ts, dtype=float)).reshape(-1), xs=xs, tmode=tmode, name="kernel")
@@ -175,6 +182,12 @@ class Check(BaseCheck):
         for k in range(20):
             nv, ne = int(rng.integers(3, 9)), int(rng.integers(2, 7))
             es = 1.0 if k % 3 else 10.0 ** rng.uniform(3, 6)
+            if k % 4 == 3:       # descending / shuffled times over several decades
+                ev = es * np.sort(np.abs(rng.normal(size=ne)))
+                tt = 10.0 ** np.linspace(2.0, -2.5, int(rng.integers(2, 5))) * 40.0 / max(float(ev.max()), 1e-300)
+                yield dict(name="kernel", evecs=rng.normal(size=(nv, ne)), evals=ev, n=ne, q=int(rng.integers(0, nv)),
+                           t=tt if k % 8 == 3 else tt[rng.permutation(len(tt))], xs=rng.choice(nv, size=2), tmode="vec")
+                continue
             yield dict(name="kernel", evecs=rng.normal(size=(nv, ne)), evals=es * (np.sort(np.abs(rng.normal(size=ne))) if k % 4 != 1 else np.abs(rng.normal(size=ne))), n=int(rng.integers(1, ne + 1)),
                        q=int(rng.integers(0, nv)), t=rng.uniform(0.1, 2, size=int(rng.integers(1, 5))) / es, xs=rng.choice(nv, size=2), tmode="vec")
 
